@@ -124,7 +124,13 @@ def run_property(pid, tier, seed):
                 s = z3.Solver()
                 s.set('timeout', 5000)
                 s.add(pc)
-                if s.check() == z3.sat:
+                rc_ = s.check()
+                if rc_ == z3.unknown:      # a time-out is not "unsatisfiable": asked again with a budget no machine load exhausts (every cover takes < 0.3 s, DESIGN 8.18)
+                    s = z3.Solver()
+                    s.set('timeout', 60000)
+                    s.add(pc)
+                    rc_ = s.check()
+                if rc_ == z3.sat:
                     sat = True
                     break
             if sat:
